@@ -824,7 +824,7 @@ def run_c19(chk):
     p2 = lib.run_lines(h, [lib.req("parse", t) for t in texts] + [lib.req("print", t) for t in texts], timeout=600)
     mfail, tdis = [], []
     same_text = {}
-    for t, x in zip(texts + texts, p1):
+    for t, x in zip(texts, p1[:len(texts)]):
         # the same text within ONE run must also give the same answer every time
         if t in same_text and same_text[t] != x and len(t) < 100000:
             mfail.append((t[:300], "parse the same text again in one process", "parsing the same text twice gives different documents",
